@@ -13,6 +13,7 @@ import PegVerif.Proofs.SwitchSafeDef
 import PegVerif.Proofs.InlineSwitchSafeDef
 import PegVerif.Proofs.NoastSwitchSafeDef
 import PegVerif.Proofs.InlineNoastSafeDef
+import PegVerif.Proofs.AllOptionsDef
 import PegVerif.Proofs.InlineLemmas
 import PegVerif.Proofs.LinkNoast
 /-
@@ -97,6 +98,10 @@ def emitOne (line : String) : String :=
                else if !o.ast && o.inline then [("inlineNoastSafe", Json.bool (inlineNoastSafe L.G)),
                     ("grammarOKN", Json.bool (GrammarOKN (Kall L.G) L.G))]
                else []))
+          -- the hypothesis of the summary theorem `all_options_same_verdict` for THIS option set (the checkers of `i`, `is`, `sn`
+          -- are cubic in the number of rules: evaluated up to 40 rules)
+          let cheap := !((o.inline && o.ast) || (!o.inline && o.switch && !o.ast)) || G'.rules.length ≤ 40
+          let hyps := if cheap then hyps.mergeObj (Json.mkObj [("theoremApplies", Json.bool (theoremApplies o L.G G'))]) else hyps
           pure (Json.mkObj [("id", id), ("rules", programJson P), ("nilCase", nilCase),
             ("unusedLabel", unusedLabel), ("header", hj), ("hyps", hyps),
             ("ruleNames", Json.arr (L.G.rules.map (fun r => Json.str r.name)).toArray)])
